@@ -55,7 +55,9 @@ except Exception:                       # pragma: no cover - the local generator
 
 STREAMS = ['build', 'construct-malformed', 'parse-own', 'spec-bytes', 'parse-foreign', 'parse-foreign-containers',
            'parse-wrongtype', 'fragment-vs-general', 'remarshal-parsed', 'tables-immutable']
-THEOREMS = ['marshal_wellformed', 'serial_fresh', 'parse_marshal', 'parse_foreign', 'cannot_construct']
+THEOREMS = ['marshal_wellformed', 'serial_fresh', 'parse_marshal', 'parse_foreign', 'cannot_construct',
+            'constructed_from_arguments', 'parse_foreign_of_constructed',
+            'parse_marshal_c01', 'parse_marshal_c01_checked', 'parse_marshal_no_body', 'parse_foreign_with_C02']
 TRUSTED_BASE = [
     'message body bytes: the model takes the bytes marshal.marshal produced as an input (opaque body codec; '
     'C01/C02 own the codec model), and the theorems take the codec round trip as a named hypothesis',
